@@ -37,3 +37,7 @@ def run(ctx):
     from . import round3 as R3
     R3.r06_10_dumper_resolver_untouched(ctx)
     R3.r06_11_string_like(ctx)
+    # "repeated dumps identical" / "altered only by the classes' own sweeten, bases first": no call-time state on classes or
+    # modules of the dumping side, and the sweeten walk mirrors the savorize walk
+    D.r11_1_calltime_writes(ctx, 'R06.12', modules=('yatiml.dumper', 'yatiml.representers'))
+    R.r05_8_hook_symmetry(ctx, 'R06.13')
